@@ -76,6 +76,22 @@ def job_defs(res):
     return "\n".join(defs)
 
 
+DICT_IMPORTS = ("From XV Require Import Base.Str Model.Bind Model.DictCodec Model.Parser Model.DictLeak Model.DictLeakCorr "
+                "Proofs.DictLeakDoc Proofs.DictLeakSkip.")
+
+
+def dict_defs(res):
+    """definitions for dictionary-decoder case files: the shared ones plus the generic classes of each job"""
+    return job_defs(res) + "\n" + "\n".join(f"Definition g_{j['id']} : generics := {j['generics']}."
+                                            for j in res["jobs"] if j.get("universe") and j.get("conv") and j.get("generics"))
+
+
+def dict_term(j, dcfg, clazz_none, jterm, dobs):
+    cfg = f"(mk_dconfig {cbool(dcfg[0])} {cbool(dcfg[1])} nd_{j['id']})"
+    clazz = "None" if clazz_none else f"(Some {j['root']})"
+    return f"({cfg}, tbl_{j['id']}, u_{j['id']}, g_{j['id']}, {clazz}, {jterm}, {dobs})"
+
+
 def cfg_term(j, cfg):
     return f"(mk_pconfig {cbool(cfg[0])} {cbool(cfg[1])} {cbool(cfg[2])} nd_{j['id']})"
 
@@ -166,7 +182,7 @@ def harness_problems(ck, res):
 # ------------------------------------------------------------------ the check
 def run(ck: Check):
     ck.level = "proof"
-    obligations, discharged, axioms = standard_proof_step(ck, extra_targets=["Model/ParserCorr.vo", "Proofs/ParserWitness.vo"])
+    obligations, discharged, axioms = standard_proof_step(ck, extra_targets=["Model/ParserCorr.vo", "Proofs/ParserWitness.vo", "Proofs/DictLeakSkip.vo"])
     q = ck.quick
     budget = {"injections": 5 if q else 8, "cfgs_per_injection": 3 if q else 4, "conversions": 2 if q else 3,
               "doc_injections": 2 if q else 3, "cfgs_per_doc": 2 if q else 3, "json_injections": 3 if q else 6,
@@ -334,7 +350,58 @@ def run(ck: Check):
                                              f"{'unconvertible' if d['unconvertible'] else 'convertible'}): without failing {d['nofail']['kind']} "
                                              f"warnings={d['nofail']['warnings']}, with fail_on_converter_warnings {d['fail']['kind']} {d['fail']['exc']}", rp)
 
-    n_eval = len(inj_terms) + len(corr_terms) + len(pairs) + len(jpairs) + len(jstrict) + len(jc_terms)
+    # dictionary decoder: Model/DictLeak.v under correspondence on every JSON document of this check, and the
+    # hypotheses of C10_dict_unknown_key_transparent evaluated in Coq for keys added to the document object
+    dterms, dmeta = [], []
+    for j in res["jobs"]:
+        if not (j.get("universe") and j.get("generics")):
+            continue
+        for d in j.get("json_cases", []):
+            dd = d.get("dict")
+            if not dd:
+                continue
+            for which in ("inj", "plain"):
+                jt, ob = dd[which]
+                if ob is not None:
+                    dterms.append(dict_term(j, dd["dcfg"], False, jt, ob))
+                    dmeta.append((j, d, which))
+        for d in j.get("json_conversions", []):
+            for failc, f in zip((False, True), d.get("dict") or []):
+                if f and f[1] is not None:
+                    dterms.append(dict_term(j, [True, failc], False, f[0], f[1]))
+                    dmeta.append((j, d, f"fail_conv={failc}"))
+    dcodes = coq_codes(f"c10_dict_{os.getpid()}", dict_defs(res), "dict_case", "dict_code_guarded", dterms, imports=DICT_IMPORTS, shard=80)
+    dict_guarded = 0
+    for (j, d, which), code in zip(dmeta, dcodes):
+        rp = {"job": job_replay_info(j), "json": d.get("doc"), "which": which}
+        dict_guarded += bool(code & 4)
+        if code & 1:
+            ck.failure("corr-dict-decoder", f"DictLeak model and DictDecoder disagree on the outcome class ({which}; key/path {d.get('key')}/{d.get('path')})", rp)
+        elif code & 2 and code & 4:
+            ck.failure("dict-theorem-contradicted", f"dict_wf holds and the decoder raised an undocumented exception ({which})", rp)
+    uk_terms, uk_meta = [], []
+    for j in res["jobs"]:
+        if not (j.get("universe") and j.get("generics")):
+            continue
+        for d in j.get("json_cases", []):
+            dd = d.get("dict")
+            if dd and d["path"] == [] and dd["inj"][1] is not None and dd["plain"][1] is not None:
+                cfg = f"(mk_dconfig {cbool(dd['dcfg'][0])} {cbool(dd['dcfg'][1])} nd_{j['id']})"
+                uk_terms.append(f"(u_{j['id']}, {cfg}, Some {j['root']}, {dd['inj'][0]}, {common.cstr(d['key'])}, {dd['inj'][1]}, {dd['plain'][1]})")
+                uk_meta.append((j, d))
+    ukc = coq_codes(f"c10_dictuk_{os.getpid()}",
+                    dict_defs(res) + "\nDefinition uk_code (x : universe * dconfig * option cls * jvalue * str * option dkind * option dkind) : N :="
+                    "\n  let '(u, cfg, clazz, j', k, a, b) := x in"
+                    "\n  if unknown_key_guard u cfg clazz j' k then (match a, b with None, None => 1 | Some x, Some y => if dkind_eqb x y then 1 else 2 | _, _ => 2 end)%N else 0%N.",
+                    "universe * dconfig * option cls * jvalue * str * option dkind * option dkind", "uk_code", uk_terms, imports=DICT_IMPORTS, shard=80)
+    uk_guarded = 0
+    for (j, d), code in zip(uk_meta, ukc):
+        uk_guarded += code in (1, 2)
+        if code == 2:
+            ck.failure("json-unknown-key-changes-result", f"hypotheses of C10_dict_unknown_key_transparent hold for key {d['key']} and the outcomes differ",
+                       {"job": job_replay_info(j), "json": d["doc"], "key": d["key"]})
+
+    n_eval = len(inj_terms) + len(corr_terms) + len(pairs) + len(jpairs) + len(jstrict) + len(jc_terms) + len(dterms)
     ck.cov["evaluations"] = n_eval
     ck.cov["distinct_nontrivial"] = len(distinct)
     ck.cov["rule"] = ("distinct (model, injection set, option triple, level) whose injection satisfies, in Coq, the hypotheses of "
@@ -349,7 +416,9 @@ def run(ck: Check):
                                     "conversion_pairs": len(pairs), "conversion_pairs_with_warning": warned,
                                     "json_transparent": len(jpairs), "json_strict": len(jstrict), "json_conversion": len(jc_terms),
                                     "json_conversion_unconvertible": sum(1 for d, _ in jc_meta if d["unconvertible"]),
-                                    "union_child_positions_swept": len(upairs)}
+                                    "union_child_positions_swept": len(upairs),
+                                    "dict_decoder_correspondence_cases": len(dterms), "dict_cases_with_closed_metadata": dict_guarded,
+                                    "dict_unknown_key_theorem_hypotheses_hold": uk_guarded}
     ck.cov["samples"] = [{"model": j["model"], "seed": j["seed"], "what": c["replay"].get("what"), "cfg": c["cfg"], "tag": c["tag"],
                           "observed": c["obs"][:160]} for (j, c) in (inj_meta[:4] + corr_meta[:3])]
     return ck.finish(obligations=obligations, discharged=discharged,
@@ -361,4 +430,5 @@ def run(ck: Check):
                      assumptions=["element and attribute names in parser events are non-empty",
                                   "one XmlMeta per class (metadata cache keyed by class: property C14's subject)",
                                   "document-level insertion positions follow no character data of the parent (Spec/Inject.v)",
-                                  "DictDecoder/JsonParser unknown keys are tested on the implementation only (no Coq model of parsers/dict.py)"])
+                                  "DictDecoder/JsonParser: Model/DictLeak.v (outcome classes) under correspondence; values of decoded objects are compared "
+                                  "on the exported outcomes only (Model/DictCodec.v, property C04, models the values of the round-trip slice)"])
